@@ -6,6 +6,7 @@ per-batch JSON into one database and offers navigation helpers to the rule
 engines.  The cache key is a content hash of every analysed file, the flags and
 the extractor binary, so an edited file is always re-extracted.
 """
+import weakref
 import glob
 import hashlib
 import json
@@ -219,8 +220,24 @@ def _prune_cache(keep, maxn=24):
         pass
 
 
+DBS = weakref.WeakSet()
+
+
+def db_of(f):
+    """the loaded DB that owns function record f (None for a free-standing record)"""
+    for db in list(DBS):
+        if db.functions.get(f.get("id")) is f:
+            return db
+    return None
+
+
 class DB(object):
+    def __setstate__(self, d):
+        self.__dict__.update(d)
+        DBS.add(self)
+
     def __init__(self, repo, config, key, srcs):
+        DBS.add(self)
         self.repo = repo
         self.config = config
         self.key = key
